@@ -84,9 +84,13 @@ def gen_cov(rng, F):
     """coverage around the focus point F; every bbox / polygon bound is a multiple of 16 (pixel edge at every resolution)"""
     kind = rng.choice(['bbox', 'bbox', 'poly'])
     clip = rng.random() < 0.5
-    place = rng.choice(['edge', 'edge', 'edge', 'contains', 'far', 'small'])
+    place = rng.choice(['edge', 'edge', 'edge', 'contains', 'far', 'small', 'cut_corner'])
     u = 16.0
-    if place == 'contains':
+    if place == 'cut_corner':
+        # the focus lies inside the bounding box of a polygon but in the corner the polygon leaves out
+        kind = 'poly'
+        rect = [F[0] - 15 * u, F[1] - 15 * u, F[0] + 135 * u, F[1] + 135 * u]
+    elif place == 'contains':
         rect = [WORLD[0] + 16, WORLD[1] + 16, WORLD[2] - 16, WORLD[3] - 16]
     elif place == 'far':
         rect = [WORLD[0] + 16, WORLD[1] + 16, WORLD[0] + 16 + 160, WORLD[1] + 16 + 160]
@@ -109,6 +113,8 @@ def gen_cov(rng, F):
         w, h = x1 - x0, y1 - y0
         a = rng.choice([0.25, 0.5, 0.75])
         b = rng.choice([0.25, 0.5, 0.75])
+        if place == 'cut_corner':
+            a = b = 0.5
         pts = [(x0 + a * w, y0), (x1, y0), (x1, y0 + b * h), (x1 - a * w, y1), (x0, y1), (x0, y1 - b * h)]
         cov['wkt'] = 'POLYGON((%s))' % ', '.join('%r %r' % p for p in pts + [pts[0]])
     return cov
@@ -147,6 +153,8 @@ def gen_source(rng, i, F, for_cache=False):
             s['opacity'] = 0.4
     if rng.random() < 0.4:
         s['cov'] = gen_cov(rng, F)
+        if s['cov']['place'] == 'cut_corner' and s['opacity'] is None and rng.random() < 0.6:
+            s['transparent'] = False        # an opaque source that does not cover the request although its bounding box does
     r = rng.random()
     if r < 0.15:
         s['min_res'] = rng.choice([3.0, 6.0, 12.0])
